@@ -22,9 +22,11 @@ STEP_FUNCS = [
     "util::decimal::ConstrainedDecimal ops (Add/Mul/div/try_from/From)",
 ]
 STEP_BOUNDS = ("one transaction from an arbitrary valid portfolio state; shapes (acting affiliate x set of affiliates "
-               "that transacted before) fixed per harness: a0_m1,a0_m7,a1_m3,a1_m1,a2_m7,a0_m0; balances 0..100 whole shares, "
-               "ACB 0..100.00, shares 1..100, price 0..10.00, commission 0..1.00, FX rates 0.01..2.00 (symbolic CAD/USD and "
-               "separate commission currency), split ratios 1..9 for 1..9; unwind 4 (1-character security/affiliate ids)")
+               "that transacted before) fixed per harness: a0_m1,a0_m7,a1_m3,a1_m1,a2_m7,a0_m0; quick tier: balances 0..15 whole "
+               "shares, ACB 0..10.00, shares 1..15, price 0..1.00, commission 0..0.15, FX rates 0.01..0.31; thorough tier: "
+               "balances 0..100, ACB 0..100.00, shares 1..100, price 0..10.00, commission 0..1.00, FX rates 0.01..2.00; "
+               "symbolic CAD/USD and separate commission currency; split ratios 1..9 for 1..9; unwind 4 (1-character "
+               "security/affiliate ids)")
 STEP_OUTSIDE = ("values beyond the ranges above; fractional share balances; more than 3 affiliates; decimal mantissas "
                 ">= 2^62 or scale > 18; division digits beyond 6 (the distance of c*n from ACB*n/balance is n*1e-6 in the "
                 "model, n*1e-28 for rust_decimal: paper step); histories of length > 1 are covered by induction over the "
@@ -32,13 +34,42 @@ STEP_OUTSIDE = ("values beyond the ranges above; fractional share balances; more
 
 PROPS = {
     "C01": {
-        "quick": [{"name": "steps", "harnesses": C01_BUY[:3] + C01_SELL[:3] + C01_ROC[:2] + C01_SFLA[:2] + C01_SPLIT[:2],
+        "quick": [{"name": "steps", "harnesses": ["c01_buy_a0_m7", "c01_buy_a2_m7", "c01_sell_a0_m1", "c01_sell_a1_m3",
+                                                 "c01_roc_a0_m1", "c01_sfla_a0_m1", "c01_split_a0_m1", "c01_split_a2_m7"],
                    "jobs": 8}],
         "thorough": [{"name": "steps", "harnesses": C01_BUY + C01_SELL + C01_ROC + C01_SFLA + C01_SPLIT, "jobs": 8}],
+        # harnesses in which only one of the accepted/rejected branches exists
         "expect_covers": {"c01_roc_a2_m7": 1, "c01_sfla_a2_m7": 1, "c01_sfla_a0_m1": 1, "c01_sfla_a1_m3": 1,
-                          "c01_sell_a0_m0": 1},
+                          "c01_sell_a1_m1": 1, "c01_split_a2_m7": 2},
         "functions": STEP_FUNCS,
         "bounds": STEP_BOUNDS,
         "outside": STEP_OUTSIDE,
     },
 }
+
+# ---------------------------------------------------------------------------
+# Claim texts (MANIFEST.level_claimed.text / level_note) per claimed property.
+CLAIMS = {
+    "C01": {
+        "text": ("Bounded model checking (Kani/CBMC) of the real delta_for_tx from an arbitrary valid portfolio state: for "
+                 "every Buy/Sell/RoC/SfLA/Split with symbolic amounts, rates and flags inside the stated ranges the solver "
+                 "shows the reported balance, all-affiliate balance, ACB and gain equal the average-cost rule (aligned with "
+                 "the model's truncated quotient), per affiliate, registered = shares only. Histories of any length follow "
+                 "by induction over the checked state invariant (paper step); that is why one step from any state is the "
+                 "right unit and a sampled history is not."),
+        "note": ("Trusted: decimal model crate (exact i64 mantissa arithmetic, 6-digit truncated division) in place of "
+                 "rust_decimal, Vec-backed HashMap, formatting and Affiliate::from_strep stubs, superficial-loss scan "
+                 "stubbed to 'not superficial' in the sell step (C02 owns it). Shapes fixed per harness; value ranges in "
+                 "evidence.bounds; the 1e-9 clause is carried from 6 to 28 digits on paper."),
+        "design_ref": "DESIGN.md 5 C01",
+    },
+}
+
+NOT_APPLICABLE = {
+    "C14": ("crash points of a file write are defined by the OS file system, not by code the solver executes; Kani has no "
+            "file-system model and a check that cannot tell an atomic-rename repair from the current code is not a check "
+            "(DESIGN.md 5 C14)"),
+}
+for _p in ["C02", "C03", "C04", "C05", "C06", "C07", "C08", "C09", "C10", "C11", "C12", "C13", "C15", "C16", "C17",
+           "C18", "C19", "C20"]:
+    NOT_APPLICABLE.setdefault(_p, "harness family not built yet in this round (work in progress; see DESIGN.md 5)")
